@@ -23,3 +23,12 @@ pub fn exec_program(lay: u16, a: u128, prog: &[(u16, u128, u128)], s: &str) -> O
         _ => arith_ub::run_program(st, lay, a, prog, s, outs),
     })
 }
+
+pub fn exec_misc(lay: u16, sel: u128, a: u128, b: u128) -> Outs {
+    drive(&mut |st, outs| match lay {
+        0..=123 => arith_sa::run_misc(st, lay, sel, a, b, outs),
+        124..=252 => arith_sb::run_misc(st, lay, sel, a, b, outs),
+        253..=376 => arith_ua::run_misc(st, lay, sel, a, b, outs),
+        _ => arith_ub::run_misc(st, lay, sel, a, b, outs),
+    })
+}
